@@ -252,4 +252,12 @@ example : ValidSalt Gen.type8SaltLen "abcdefghijklm/".toList := by unfold ValidS
 -- the real type 9 hash of "x" with salt "90cHlEH/hE7.VY" starts from these 32 scrypt bytes; layout only
 example : (ciscoHash (List.replicate 32 0)).length = 43 := by decide +kernel
 
+/-! ### types 8, 9: nothing is ever "decrypted"
+
+The property speaks of *verifying* type 8/9 hashes by recomputation; the class also carries `decrypt_type_8` and
+`decrypt_type_9`.  They never return a plaintext (so no caller can mistake some string for a recovered password):
+for every argument the answer is `NotImplementedError`. -/
+theorem type8_type9_never_decrypt (t : Str) :
+    decryptType8 t = .error .notImplementedError ∧ decryptType9 t = .error .notImplementedError := ⟨rfl, rfl⟩
+
 end Ccp.C17
